@@ -55,6 +55,13 @@ type Viol struct {
 
 // Ctx is handed to Property.Run.
 type Ctx struct {
+	// updated atomically: kept first so that they are 64-bit aligned on 32-bit builds too
+	evals    int64
+	nontriv  int64
+	expected int64
+	nviol    int64
+	nsample  int64
+
 	Prop     string
 	Tier     string
 	Thorough bool
@@ -62,15 +69,9 @@ type Ctx struct {
 	Start    time.Time
 	Deadline time.Time
 
-	evals    int64
-	nontriv  int64
-	expected int64
-	nviol    int64
-
 	mu      sync.Mutex
 	viols   []Viol
 	samples []interface{}
-	nsample int64
 	cov     map[string]interface{}
 	ints    map[string]*int64
 	caps    []string
